@@ -353,7 +353,12 @@ def soak(pid, suite, tier, seed, driver):
     legs of the real library, compare the output files natively; only mismatching lines are read back"""
     import tempfile, shutil
     gen_exe = fmlib.build_soakgen()
-    per = 1_200_000 if tier == "quick" else 40_000_000
+    per = 1_200_000 if tier == "quick" else 2_000_000      # lines per worker and round (the three files are removed after each round)
+    rounds = 1 if tier == "quick" else 20
+    import fingerprint
+    ch = fingerprint.changed()
+    if ch and tier == "quick":
+        rounds = 3          # the library text differs from the text the model was written for: look harder (not an alarm)
     workers = fmlib.NCPU
     legs2 = [fmlib.V_DEFAULT, fmlib.V_CLANG20]
     exes = [fmlib.build_harness(v)[0] for v in legs2]
@@ -361,18 +366,19 @@ def soak(pid, suite, tier, seed, driver):
     div, compared = [], 0
     try:
         import concurrent.futures as cf
-        def work(w):
-            exe = exes[w % len(exes)]
-            L, M, H = (os.path.join(d, "%s%d" % (c, w)) for c in "LMH")
+        def work(job):
+            rnd, w = job
+            exe = exes[(w + rnd) % len(exes)]
+            L, M, H = (os.path.join(d, "%s%d_%d" % (c, rnd, w)) for c in "LMH")
             cmd = ("%s %s %d %d | sed 's/:dflt/:std/' > %s && %s < %s > %s & pid1=$!; wait $pid1; %s < %s > %s; cmp -s %s %s" %
-                   (gen_exe, pid, seed * 1000 + w, per, L, driver, L, M, exe, L, H, M, H))
+                   (gen_exe, pid, seed * 100000 + rnd * 1000 + w, per, L, driver, L, M, exe, L, H, M, H))
             r = subprocess.run(["bash", "-c", cmd], capture_output=True, text=True)
             out = []
             if r.returncode != 0:
                 with open(L) as fl, open(M) as fm, open(H) as fh:
                     for l, m_, h in zip(fl, fm, fh):
                         if m_ != h:
-                            out.append((l.strip(), legs2[w % len(exes)].name, h.strip(), m_.strip()))
+                            out.append((l.strip(), legs2[(w + rnd) % len(exes)].name, h.strip(), m_.strip()))
                             if len(out) >= 2000: break
             n = per
             for f in (L, M, H):
@@ -380,11 +386,13 @@ def soak(pid, suite, tier, seed, driver):
                 except OSError: pass
             return out, n
         with cf.ThreadPoolExecutor(max_workers=workers) as ex:
-            for out, n in ex.map(work, range(workers)):
+            for out, n in ex.map(work, [(r_, w_) for r_ in range(rounds) for w_ in range(workers)]):
                 div += out; compared += n
+                if len(div) > 20000: break
     finally:
         shutil.rmtree(d, ignore_errors=True)
-    return {"generator": "tools/soakgen.cc", "compared": compared, "workers": workers, "legs": [v.name for v in legs2], "mismatches": len(div)}, div
+    return {"generator": "tools/soakgen.cc", "compared": compared, "workers": workers, "rounds": rounds, "legs": [v.name for v in legs2], "mismatches": len(div),
+            "source_files_changed_since_model_was_written": ch}, div
 
 def special_first(lines, seed):
     sp = sorted(l for l in lines if l in suites.SPECIAL)
